@@ -655,7 +655,7 @@ class RiscvParser(Parser):
                 # in line label
                 if line_number in self.in_line_labels:
                     self._add_label_mapping(
-                        self.in_line_labels[line_number],
+                        self.in_line_labels.pop(line_number),
                         instruction_address,
                         line_number,
                         line,
